@@ -296,6 +296,20 @@ pub fn run(ctx: &mut Ctx) {
             }
         }
     }
+    // metadata keys that are spelled like the fields of the serialised structures, holding every YAML shape: a reader
+    // that guesses the layout from the content must not confuse the user's data with the wrapper
+    if ctx.shard == 0 {
+        for k in ["map", "metadata", "sections", "ingredients", "cookware", "timers", "inline_quantities", "data", "content", "name", "value", "type", "quantity", "Ok", "Some", "raw"] {
+            for val in ["{lat: 43.7, lon: 10.4}", "{a: {b: [1, 2]}}", "[1, two, {three: 3}]", "plain text", "7", "{}", "[]", "~", "{map: {map: 1}}", "{type: text, value: x}"] {
+                let input = format!("---\ntitle: Ribollita\n{k}: {val}\n---\nBoil the @beans{{300%g}}.\n");
+                check_case(ctx, &mut ps, &Case::new("front_matter", input, all, "bundled"));
+                let input = format!("---\n{k}: {val}\n---\n");
+                check_case(ctx, &mut ps, &Case::new("front_matter", input, 0, "empty"));
+                ctx.count("inputs_front_matter");
+                ctx.count("inputs_front_matter_field_named_keys");
+            }
+        }
+    }
     // ingredients that reference other recipes by path (`./`, `../`, back slashes; empty, doubled and trailing segments)
     if ctx.shard == 0 {
         for name in ["./sauces/tomato", "./sauces//tomato", "./sauces/", "../a/../b/x", "./x", ".//", "./", "../", "./a b/c d", ".\\x\\y", "..\\x", "./é/漢 字", "./a/b/c/d/e/f", "./sauces/tomato.cook", "./.", "./.."] {
